@@ -625,16 +625,23 @@ var bufferPool = &sync.Pool{ //nolint:gochecknoglobals
 
 func (c *Client) handleAgentCallback(event Event) { //nolint:cyclop
 	c.mux.Lock()
-	if c.closed {
-		c.mux.Unlock()
-
-		return
-	}
+	closed := c.closed
 	transaction, found := c.t[event.TransactionID]
 	if found {
 		delete(c.t, transaction.id)
 	}
 	c.mux.Unlock()
+	if closed {
+		// The client is closing: nothing is retransmitted and the fallback
+		// handler is not used any more, but a transaction that is still
+		// registered must be completed (its handler, or Do, waits for this).
+		if found {
+			transaction.handle(event)
+			putClientTransaction(transaction)
+		}
+
+		return
+	}
 	if !found {
 		if c.handler != nil && !errors.Is(event.Error, ErrTransactionStopped) {
 			c.handler(event)
